@@ -348,3 +348,46 @@ def arrow_null_over_empty_content(case, why):
             return True
         return any(bad(x) for x in L.get("xs", []))
     return bad(case.get("from"))
+
+
+# ---- C17: the datashape parser does not accept / does not reproduce some of what Type::tostring prints
+def _tnodes(t):
+    yield t
+    if "x" in t:
+        for y in _tnodes(t["x"]):
+            yield y
+    for c in t.get("xs", []):
+        for y in _tnodes(c):
+            yield y
+
+
+def _iscat(t):
+    return any(k == "__categorical__" for k, _ in t.get("ps", []))
+
+
+def typeparser_inner_regular_as_arraytype(case, why):
+    """F44: from_datashape(high_level=True) turns EVERY 'N * T' into an ArrayType, not only the outermost one."""
+    return (case.get("act") == "type" and why.startswith("re-parsed type prints the same")
+            and any(n["k"] == "reg" and not n.get("ps") for n in _tnodes(case["tree"])))
+
+
+def typeparser_categorical_regular(case, why):
+    """F45: 'categorical[type=N * T]' is parsed with the categorical flag handed to T instead of the regular type."""
+    return (case.get("act") == "type" and why.startswith("type changed by printing and re-parsing")
+            and any(n["k"] == "reg" and _iscat(n) and len(n.get("ps", [])) == 1 for n in _tnodes(case["tree"])))
+
+
+def typeparser_zero_field_record(case, why):
+    """F46: records/tuples without fields print as '()', '{}', 'Name[]', 'struct[[], [], ...]', 'tuple[[], ...]', none of which the grammar accepts."""
+    return (case.get("act") == "type" and "cannot be parsed back" in why
+            and any(n["k"] == "rec" and len(n["xs"]) == 0 for n in _tnodes(case["tree"])))
+
+
+def typeparser_named_tuple(case, why):
+    """F47: a tuple with a record name prints as 'Name[T, ...]'; the grammar's record_highlevel requires '"key": T' items."""
+    kw = {"var", "option", "bool", "int8", "int16", "int32", "int64", "int128", "uint8", "uint16", "uint32", "uint64", "uint128",
+          "float16", "float32", "float64", "float128", "decimal32", "decimal64", "decimal128", "bignum", "int", "real", "complex",
+          "intptr", "uintptr", "string", "char", "bytes", "date", "json", "void", "datetime", "categorical", "pointer"}
+    return (case.get("act") == "type" and "cannot be parsed back" in why
+            and any(n["k"] == "rec" and n["tup"] == 1 and n.get("nm") and n["nm"] not in kw and not n.get("ps") and len(n["xs"]) > 0
+                    for n in _tnodes(case["tree"])))
